@@ -150,6 +150,11 @@ func (c *Config) Get(format string) (info *Info, err error) {
 	if err = mergo.Merge(info, c.Info, mergo.WithOverride); err != nil {
 		return nil, fmt.Errorf("failed to merge config into info: %w", err)
 	}
+	// mergo copies pointers, not what they point to: give the copy its own key
+	// ids, otherwise merging an override below writes through to the parsed config
+	info.Deb.Signature.KeyID = cloneString(info.Deb.Signature.KeyID)
+	info.RPM.Signature.KeyID = cloneString(info.RPM.Signature.KeyID)
+	info.APK.Signature.KeyID = cloneString(info.APK.Signature.KeyID)
 	override, ok := c.Overrides[format]
 	if !ok {
 		// no overrides
@@ -167,6 +172,13 @@ func (c *Config) Get(format string) (info *Info, err error) {
 	}
 	info.Contents = contents
 	return info, nil
+}
+
+func cloneString(s *string) *string {
+	if s == nil {
+		return nil
+	}
+	return pointer.ToString(*s)
 }
 
 // Validate ensures that the config is well typed.
